@@ -51,15 +51,26 @@ def gen_menu(method, honesty=False):
         out.append(('scalar', dict(step=1e-4)))
     for st in (0.1, 1e-2):
         out.append(('scalar', dict(step=st, num_extrap=5)))
+    out += rows_menu(honesty)
     return out
+
+
+def rows_menu(honesty):
+    """generators whose step count is tied to the rule length L of the configuration (kind 'rows': num_steps =
+    L + rows - 1, check_num_steps=False): rows = 0 is one step too few (the library must refuse it; if it accepts
+    it, the value is judged like any other), rows = 2 / 3 leave exactly two / three estimates (C02: the error
+    estimate of a very short table must still be honest)."""
+    if honesty:
+        return [('rows', dict(rows=2)), ('rows', dict(rows=3))]
+    return [('rows', dict(rows=0))]
 
 
 def quick_gen_menu(method, honesty=False):
     """user generators of the menu that also run in the quick tier (on a rotating slice of programs)"""
     if method in ('central', 'forward', 'backward'):
         return [('Max', dict(base_step=0.25, num_steps=15, step_ratio=2))] + (
-            [('Max', dict(step_ratio=4.0, num_steps=20)), ('scalar', dict(step=1e-3))] if honesty else [])
-    return [('Min', dict(num_extrap=5))]
+            [('Max', dict(step_ratio=4.0, num_steps=20)), ('scalar', dict(step=1e-3))] if honesty else []) + rows_menu(honesty)
+    return [('Min', dict(num_extrap=5))] + rows_menu(honesty)
 
 
 def quick_points(ctx):
@@ -82,6 +93,8 @@ def oracle_steps(method, n, order, x, gen):
         o = dict(gopts)
         st = o.pop('step')
         cls, opts = sm.derivative_generator(method, st, **o)
+    elif gkind == 'rows':
+        cls, opts = rows_generator(method, n, order, gopts['rows'])
     else:
         cls, opts = gkind, dict(gopts)
     steps, _, _ = sm.steps(cls, x, method, n, mo, **opts)
@@ -89,6 +102,11 @@ def oracle_steps(method, n, order, x, gen):
         return None, None
     a = [abs(float(np.max(np.abs(s)))) for s in steps]
     return max(a), min(a)
+
+
+def rows_generator(method, n, order, rows):
+    cls = 'Max' if method in ('central', 'forward', 'backward') else 'Min'
+    return cls, dict(num_steps=max(sm.rule_length(method, n, order) + rows - 1, 1), check_num_steps=False)
 
 
 def build_derivative(fun, method, n, order, gen):
@@ -102,6 +120,9 @@ def build_derivative(fun, method, n, order, gen):
         kw['step'] = MinStepGenerator(**gopts)
     elif gkind == 'Max':
         kw['step'] = MaxStepGenerator(**gopts)
+    elif gkind == 'rows':
+        cls, opts = rows_generator(method, n, order, gopts['rows'])
+        kw['step'] = (MaxStepGenerator if cls == 'Max' else MinStepGenerator)(**opts)
     return nd.Derivative(fun, **kw)
 
 
